@@ -259,15 +259,15 @@ where
                         }
 
                         if *ptr == b'\\' {
+                            let escape_ptr = ptr;
                             let advance = end.offset_from(ptr).min(2);
                             ptr = ptr.offset(advance);
                             if ptr == end {
+                                // resume at the backslash, whether or not
+                                // its escaped byte has been buffered
                                 let carry_over = end.offset_from(start_ptr) as usize;
-                                return self.next_opt_refill(
-                                    ParseState::Quote,
-                                    carry_over,
-                                    carry_over.max(2) - 2,
-                                );
+                                let offset = escape_ptr.offset_from(start_ptr) as usize;
+                                return self.next_opt_refill(ParseState::Quote, carry_over, offset);
                             }
                         } else if *ptr != b'"' {
                             ptr = ptr.add(1);
